@@ -26,44 +26,82 @@ package align
 //@ func (*align).RemoveCharacterSites
 //@   props C12
 //@   requires wfa(a)
-// first / last: lengths of the maximal qualifying prefix / suffix (cs_hit is the removal rule of the property statement)
-//@   ensures 0 <= first && first <= max(old(a.length), 0) && (forall k :: 0 <= k && k < first ==> old(cs_hit(a, c, cutoff, ignoreCase, ignoreGaps, ignoreNs, reverse, k))) && (first < old(a.length) ==> !old(cs_hit(a, c, cutoff, ignoreCase, ignoreGaps, ignoreNs, reverse, first)))
-//@   ensures 0 <= last && last <= max(old(a.length), 0) && (forall k :: old(a.length) - last <= k && k < old(a.length) ==> old(cs_hit(a, c, cutoff, ignoreCase, ignoreGaps, ignoreNs, reverse, k))) && (last < old(a.length) ==> !old(cs_hit(a, c, cutoff, ignoreCase, ignoreGaps, ignoreNs, reverse, old(a.length) - last - 1)))
-// frame: same rows, same names, same order; only the residues and the cached length change
-//@   ensures nrows(a) == old(nrows(a)) && a.length <= old(a.length) && old(a.length) - max(old(a.length), 0) <= a.length
+// first / last: lengths of the maximal qualifying prefix / suffix
+//@   ensures 0 <= first && first <= max(old(a.length), 0) && (forall k :: 0 <= k && k < first ==> c12b_SH(a, c, cutoff, ignoreCase, ignoreGaps, ignoreNs, reverse, k)) && (first < old(a.length) ==> !c12b_SH(a, c, cutoff, ignoreCase, ignoreGaps, ignoreNs, reverse, first))
+//@   ensures 0 <= last && last <= max(old(a.length), 0) && (forall k :: old(a.length) - last <= k && k < old(a.length) ==> c12b_SH(a, c, cutoff, ignoreCase, ignoreGaps, ignoreNs, reverse, k)) && (last < old(a.length) ==> !c12b_SH(a, c, cutoff, ignoreCase, ignoreGaps, ignoreNs, reverse, old(a.length) - last - 1))
+// rm: the columns actually removed (qualifying; in ends mode only those of the leading / trailing run), by rank; kept: the others, by rank
+//@   ensures len(rm) == c12b_SNR(a, c, cutoff, ignoreCase, ignoreGaps, ignoreNs, reverse, ends, first - 1, old(a.length) - last, old(a.length)) && len(kept) == max(old(a.length), 0) - len(rm)
+//@   ensures c12b_srmok(a, c, cutoff, ignoreCase, ignoreGaps, ignoreNs, reverse, ends, first - 1, old(a.length) - last, rm, old(a.length))
+//@   ensures c12b_skeptok(a, c, cutoff, ignoreCase, ignoreGaps, ignoreNs, reverse, ends, first - 1, old(a.length) - last, kept, old(a.length))
+// the alignment: well-formed, same rows / names / order, cached length reduced by the number of columns actually removed
+//@   ensures wfa(a) && a.length == old(a.length) - len(rm)
+// the result is the selection of the kept columns: column j of the result is column kept[j] of the input
+//@   ensures forall r, j, K :: 0 <= r && r < nrows(a) && 0 <= j && j < len(kept) && K == kept[j] ==> cell(a, r, j) == old(cell(a, r, K))
+//@   ensures nrows(a) == old(nrows(a))
 //@   ensures forall r :: 0 <= r && r < nrows(a) ==> row(a, r) == old(row(a, r)) && rowname(a, r) == old(rowname(a, r))
+//@   assert_at sort.Ints 1 : forall i :: 0 <= i && i + 1 < len(arg0) ==> arg0[i] <= arg0[i+1]
 //@   modifies a.length, field(seq.sequence)
 //@   loop 1
-//@     invariant lenBk == a.length && 0 <= site && site <= max(a.length, 0)
+//@     invariant lenBk == a.length && 0 <= site && site <= max(a.length, 0) && lastcontinuous <= a.length
 //@     invariant -1 <= firstcontinuous && firstcontinuous < site
-//@     invariant forall k :: 0 <= k && k <= firstcontinuous ==> old(cs_hit(a, c, cutoff, ignoreCase, ignoreGaps, ignoreNs, reverse, k))
-//@     invariant firstcontinuous + 1 < site ==> !old(cs_hit(a, c, cutoff, ignoreCase, ignoreGaps, ignoreNs, reverse, firstcontinuous + 1))
-//@     invariant (lastcontinuous == a.length && (site == 0 || !old(cs_hit(a, c, cutoff, ignoreCase, ignoreGaps, ignoreNs, reverse, site - 1)))) || (0 <= lastcontinuous && lastcontinuous < site && (forall k :: lastcontinuous <= k && k < site ==> old(cs_hit(a, c, cutoff, ignoreCase, ignoreGaps, ignoreNs, reverse, k))) && (lastcontinuous == 0 || !old(cs_hit(a, c, cutoff, ignoreCase, ignoreGaps, ignoreNs, reverse, lastcontinuous - 1))))
-//@     invariant fresh(toremove) && 0 <= len(toremove) && len(toremove) <= site
+//@     invariant forall k :: 0 <= k && k <= firstcontinuous ==> c12b_SH(a, c, cutoff, ignoreCase, ignoreGaps, ignoreNs, reverse, k)
+//@     invariant firstcontinuous + 1 < site ==> !c12b_SH(a, c, cutoff, ignoreCase, ignoreGaps, ignoreNs, reverse, firstcontinuous + 1)
+//@     invariant (lastcontinuous == a.length && (site == 0 || !c12b_SH(a, c, cutoff, ignoreCase, ignoreGaps, ignoreNs, reverse, site - 1))) || (0 <= lastcontinuous && lastcontinuous < site && (forall k :: lastcontinuous <= k && k < site ==> c12b_SH(a, c, cutoff, ignoreCase, ignoreGaps, ignoreNs, reverse, k)) && (lastcontinuous == 0 || !c12b_SH(a, c, cutoff, ignoreCase, ignoreGaps, ignoreNs, reverse, lastcontinuous - 1)))
+//@     invariant fresh(toremove) && allocated(toremove) && base(toremove) != base(kept) && base(toremove) != base(rm) && len(kept) == 0 && len(rm) == 0 && fresh(kept) && fresh(rm) && allocated(kept) && allocated(rm) && base(kept) != base(rm)
+//@     invariant len(toremove) == c12b_SN(a, c, cutoff, ignoreCase, ignoreGaps, ignoreNs, reverse, site) && 0 <= len(toremove) && len(toremove) <= site
+//@     invariant forall j :: 0 <= j && j < len(toremove) ==> 0 <= toremove[j] && toremove[j] < site
+//@     invariant forall j :: 0 <= j && j + 1 < len(toremove) ==> toremove[j] < toremove[j+1]
+//@     invariant c12b_strok(a, c, cutoff, ignoreCase, ignoreGaps, ignoreNs, reverse, toremove, site)
 //@     decreases a.length - site
 //@   loop 2
 //@     invariant 0 <= site && site < a.length && 0 <= seq && seq <= nrows(a)
 //@     invariant nbchars == old(cs_cnt(a, c, ignoreCase, reverse, site, seq)) && total == old(cs_tot(a, ignoreGaps, ignoreNs, site, seq))
 //@     decreases nrows(a) - seq
 //@   loop 3
-//@     invariant 0 <= seq && seq <= nrows(a) && 0 <= nbremoved && nbremoved <= max(a.length, 0) && fresh(kept) && fresh(rm)
+//@     invariant 0 <= seq && seq <= nrows(a) && a.length == old(a.length) && lenBk == a.length && -1 <= firstcontinuous && lastcontinuous <= a.length
 //@     invariant forall r :: seq <= r && r < nrows(a) ==> sameslice(row(a, r).sequence, old(row(a, r).sequence))
+//@     invariant forall r :: 0 <= r && r < seq ==> len(row(a, r).sequence) == a.length - c12b_SNR(a, c, cutoff, ignoreCase, ignoreGaps, ignoreNs, reverse, ends, firstcontinuous, lastcontinuous, a.length)
+//@     invariant fresh(toremove) && allocated(toremove) && fresh(kept) && fresh(rm) && allocated(kept) && allocated(rm) && base(toremove) != base(kept) && base(toremove) != base(rm) && base(kept) != base(rm)
+//@     invariant len(toremove) == c12b_SN(a, c, cutoff, ignoreCase, ignoreGaps, ignoreNs, reverse, a.length) && 0 <= len(toremove) && len(toremove) <= max(a.length, 0)
+//@     invariant c12b_strok(a, c, cutoff, ignoreCase, ignoreGaps, ignoreNs, reverse, toremove, a.length)
+//@     invariant forall r :: 0 <= r && r < seq ==> fresh(row(a, r).sequence) && allocated(row(a, r).sequence)
+//@     invariant forall r, j, K :: 0 <= r && r < seq && 0 <= j && j < len(kept) && K == kept[j] ==> cell(a, r, j) == old(cell(a, r, K))
+//@     invariant seq == 0 ==> nbremoved == 0 && len(kept) == 0 && len(rm) == 0
+//@     invariant seq > 0 ==> nbremoved == c12b_SNR(a, c, cutoff, ignoreCase, ignoreGaps, ignoreNs, reverse, ends, firstcontinuous, lastcontinuous, a.length) && len(rm) == nbremoved && len(kept) == a.length - nbremoved && 0 <= nbremoved && nbremoved <= a.length
+//@     invariant seq > 0 ==> c12b_srmok(a, c, cutoff, ignoreCase, ignoreGaps, ignoreNs, reverse, ends, firstcontinuous, lastcontinuous, rm, a.length)
+//@     invariant seq > 0 ==> c12b_skeptok(a, c, cutoff, ignoreCase, ignoreGaps, ignoreNs, reverse, ends, firstcontinuous, lastcontinuous, kept, a.length)
 //@     decreases nrows(a) - seq
 //@   loop 4
-//@     invariant 0 <= i && i <= a.length && 0 <= seq && seq < nrows(a)
-//@     invariant 0 <= nbpotentialremove && 0 <= nbremoved && nbremoved <= i && fresh(kept) && fresh(rm) && fresh(newseq)
+//@     invariant 0 <= i && i <= a.length && 0 <= seq && seq < nrows(a) && a.length == old(a.length) && lenBk == a.length && -1 <= firstcontinuous && lastcontinuous <= a.length
+//@     invariant nbpotentialremove == c12b_SN(a, c, cutoff, ignoreCase, ignoreGaps, ignoreNs, reverse, i) && 0 <= nbpotentialremove && nbpotentialremove <= len(toremove)
+//@     invariant nbremoved == c12b_SNR(a, c, cutoff, ignoreCase, ignoreGaps, ignoreNs, reverse, ends, firstcontinuous, lastcontinuous, i) && 0 <= nbremoved && nbremoved <= i
+//@     invariant fresh(newseq) && len(newseq) == i - nbremoved
 //@     invariant forall r :: seq <= r && r < nrows(a) ==> sameslice(row(a, r).sequence, old(row(a, r).sequence))
+//@     invariant forall r :: 0 <= r && r < seq ==> len(row(a, r).sequence) == a.length - c12b_SNR(a, c, cutoff, ignoreCase, ignoreGaps, ignoreNs, reverse, ends, firstcontinuous, lastcontinuous, a.length)
+//@     invariant fresh(toremove) && allocated(toremove) && fresh(kept) && fresh(rm) && allocated(kept) && allocated(rm) && base(toremove) != base(kept) && base(toremove) != base(rm) && base(kept) != base(rm)
+//@     invariant len(toremove) == c12b_SN(a, c, cutoff, ignoreCase, ignoreGaps, ignoreNs, reverse, a.length) && 0 <= len(toremove) && len(toremove) <= max(a.length, 0)
+//@     invariant c12b_strok(a, c, cutoff, ignoreCase, ignoreGaps, ignoreNs, reverse, toremove, a.length)
+//@     invariant allocated(newseq) && (forall r :: 0 <= r && r < seq ==> fresh(row(a, r).sequence) && allocated(row(a, r).sequence) && base(row(a, r).sequence) != base(newseq))
+//@     invariant forall r, j, K :: 0 <= r && r < seq && 0 <= j && j < len(kept) && K == kept[j] ==> cell(a, r, j) == old(cell(a, r, K))
+//@     invariant forall j, K :: 0 <= j && j < len(newseq) && j < len(kept) && K == kept[j] ==> newseq[j] == old(cell(a, seq, K))
+//@     invariant seq == 0 ==> len(rm) == nbremoved && len(kept) == i - nbremoved
+//@     invariant seq > 0 ==> len(rm) == c12b_SNR(a, c, cutoff, ignoreCase, ignoreGaps, ignoreNs, reverse, ends, firstcontinuous, lastcontinuous, a.length) && len(kept) == a.length - len(rm)
+//@     invariant c12b_srmok(a, c, cutoff, ignoreCase, ignoreGaps, ignoreNs, reverse, ends, firstcontinuous, lastcontinuous, rm, (seq == 0 ? i : a.length))
+//@     invariant c12b_skeptok(a, c, cutoff, ignoreCase, ignoreGaps, ignoreNs, reverse, ends, firstcontinuous, lastcontinuous, kept, (seq == 0 ? i : a.length))
 //@     decreases a.length - i
 
-// RemoveGapSites = RemoveCharacterSites([]uint8{GAP}, cutoff, ends, false, false, false, false). Thin contract (safety and frame);
-// the semantic clauses are those of RemoveCharacterSites with c = {'-'} (the slice literal is local to the wrapper, so they are
-// not restated here).
+// RemoveGapSites = RemoveCharacterSites([]uint8{GAP}, cutoff, ends, false, false, false, false). Safety, frame, well-formedness, length
+// arithmetic and column selection; the removal-rule clauses are those of RemoveCharacterSites with c = {'-'} (the slice literal is
+// local to the wrapper, so they are not restated here).
 //@ func (*align).RemoveGapSites
 //@   props C12
 //@   requires wfa(a)
 //@   ensures 0 <= first && first <= max(old(a.length), 0) && 0 <= last && last <= max(old(a.length), 0)
 //@   ensures nrows(a) == old(nrows(a)) && a.length <= old(a.length)
 //@   ensures forall r :: 0 <= r && r < nrows(a) ==> row(a, r) == old(row(a, r)) && rowname(a, r) == old(rowname(a, r))
+// (second round) well-formed afterwards, cached length reduced by the number of columns actually removed, the result is the selection of the kept columns
+//@   ensures wfa(a) && a.length == old(a.length) - len(rm) && len(kept) == max(old(a.length), 0) - len(rm)
+//@   ensures forall r, j, K :: 0 <= r && r < nrows(a) && 0 <= j && j < len(kept) && K == kept[j] ==> cell(a, r, j) == old(cell(a, r, K))
 //@   modifies a.length, field(seq.sequence)
 
 // ---- sequences ----
@@ -75,24 +113,41 @@ package align
 // number of columns among the first n that are not excluded by ignore-gaps / ignore-N-or-X of the alignment's own alphabet
 //@ pure func cq_tot(a *align, sq *seq, ig bool, ign bool, n int) int = (n <= 0 ? 0 : cq_tot(a, sq, ig, ign, n-1) + (excl(a, ig, ign, sq.sequence[n-1]) ? 0 : 1))
 
+// row r qualifies for removal: the rule of the property statement over the columns of the row
+//@ ground func c12b_qhit(a *align, r int, c int, cut real, ic bool, ig bool, ign bool) bool = cs_rule(cut, cq_cnt(row(a, r), c, ic, a.length), cq_tot(a, row(a, r), ig, ign, a.length))
+// number of rows among the first n that do not qualify (= new index of a kept row n)
+//@ pure func c12b_qrank(a *align, c int, cut real, ic bool, ig bool, ign bool, n int) int = (n <= 0 ? 0 : c12b_qrank(a, c, cut, ic, ig, ign, n-1) + (c12b_qhit(a, n-1, c, cut, ic, ig, ign) ? 0 : 1))
+// the same over the state at function entry, with the cutoff clamped (a cutoff outside [0,1] counts as 0)
+//@ pure func c12b_QH(a *align, c int, cutoff real, ic bool, ig bool, ign bool, r int) bool = old(c12b_qhit(a, r, c, cs_cut(cutoff), ic, ig, ign))
+//@ pure func c12b_QR(a *align, c int, cutoff real, ic bool, ig bool, ign bool, n int) int = old(c12b_qrank(a, c, cs_cut(cutoff), ic, ig, ign, n))
+
 //@ func (*align).RemoveCharacterSeqs
 //@   props C12
 //@   requires wfa(a)
 //@   ensures wfa(a) && 0 <= result && result <= old(nrows(a)) && a.alphabet == old(a.alphabet)
+// a row is removed iff it qualifies (c12b_QH: the rule of the property statement over the row); the kept rows keep their order (rank), name and residues
+//@   ensures nrows(a) == c12b_QR(a, c, cutoff, ignoreCase, ignoreGaps, ignoreNs, old(nrows(a))) && nrows(a) + result == old(nrows(a)) && (nrows(a) > 0 ==> a.length == old(a.length))
+//@   ensures forall r :: 0 <= r && r < old(nrows(a)) && !c12b_QH(a, c, cutoff, ignoreCase, ignoreGaps, ignoreNs, r) ==> 0 <= c12b_QR(a, c, cutoff, ignoreCase, ignoreGaps, ignoreNs, r) && c12b_QR(a, c, cutoff, ignoreCase, ignoreGaps, ignoreNs, r) < nrows(a) && rowname(a, c12b_QR(a, c, cutoff, ignoreCase, ignoreGaps, ignoreNs, r)) == old(rowname(a, r)) && sameslice(row(a, c12b_QR(a, c, cutoff, ignoreCase, ignoreGaps, ignoreNs, r)).sequence, old(row(a, r).sequence))
 //@   modifies a.seqs, a.seqmap, a.length
 //@   loop 1
-//@     invariant wfa(a) && fresh(a.seqs) && fresh(a.seqmap) && a.alphabet == old(a.alphabet) && sameslice(oldseqs, old(a.seqs)) && length == old(a.length)
-//@     invariant 0 <= nbremoved && nbremoved <= $i
+//@     invariant wfa(a) && fresh(a.seqs) && fresh(a.seqmap) && a.alphabet == old(a.alphabet) && sameslice(oldseqs, old(a.seqs)) && length == old(a.length) && (nrows(a) > 0 ==> a.length == length)
+//@     invariant 0 <= nbremoved && nbremoved <= $i && nbremoved + nrows(a) == $i
 //@     invariant all == wildcard(a) && allc == low8(wildcard(a))
+//@     invariant nrows(a) == c12b_QR(a, c, cutoff, ignoreCase, ignoreGaps, ignoreNs, $i)
+//@     invariant forall r :: 0 <= r && r < $i ==> 0 <= c12b_QR(a, c, cutoff, ignoreCase, ignoreGaps, ignoreNs, r) && c12b_QR(a, c, cutoff, ignoreCase, ignoreGaps, ignoreNs, r) <= nrows(a) && (!c12b_QH(a, c, cutoff, ignoreCase, ignoreGaps, ignoreNs, r) ==> c12b_QR(a, c, cutoff, ignoreCase, ignoreGaps, ignoreNs, r) < nrows(a))
+//@     invariant forall r :: 0 <= r && r < $i && !c12b_QH(a, c, cutoff, ignoreCase, ignoreGaps, ignoreNs, r) ==> rowname(a, c12b_QR(a, c, cutoff, ignoreCase, ignoreGaps, ignoreNs, r)) == old(rowname(a, r)) && sameslice(row(a, c12b_QR(a, c, cutoff, ignoreCase, ignoreGaps, ignoreNs, r)).sequence, old(row(a, r).sequence))
+//@     invariant forall q :: 0 <= q && q < nrows(a) ==> exists r :: 0 <= r && r < $i && old(rowname(a, r)) == rowname(a, q)
 //@     decreases len(oldseqs) - $i
 //@   loop 2
 //@     invariant 0 <= site && site <= max(length, 0) && seq == old(row(a, $i1 - 1)) && 0 <= $i1 - 1 && $i1 - 1 < old(nrows(a))
 //@     invariant nbseqs == old(cq_cnt(row(a, $i1 - 1), c, ignoreCase, site)) && total == old(cq_tot(a, row(a, $i1 - 1), ignoreGaps, ignoreNs, site))
 //@     decreases length - site
 
-// RemoveGapSeqs = RemoveCharacterSeqs(GAP, cutoff, false, false, ignoreNs): thin contract
+// RemoveGapSeqs = RemoveCharacterSeqs(GAP, cutoff, false, false, ignoreNs): the callee's clauses with c = '-'
 //@ func (*align).RemoveGapSeqs
 //@   props C12
 //@   requires wfa(a)
 //@   ensures wfa(a) && 0 <= result && result <= old(nrows(a)) && a.alphabet == old(a.alphabet)
+//@   ensures nrows(a) == c12b_QR(a, GAP, cutoff, false, false, ignoreNs, old(nrows(a))) && nrows(a) + result == old(nrows(a)) && (nrows(a) > 0 ==> a.length == old(a.length))
+//@   ensures forall r :: 0 <= r && r < old(nrows(a)) && !c12b_QH(a, GAP, cutoff, false, false, ignoreNs, r) ==> 0 <= c12b_QR(a, GAP, cutoff, false, false, ignoreNs, r) && c12b_QR(a, GAP, cutoff, false, false, ignoreNs, r) < nrows(a) && rowname(a, c12b_QR(a, GAP, cutoff, false, false, ignoreNs, r)) == old(rowname(a, r)) && sameslice(row(a, c12b_QR(a, GAP, cutoff, false, false, ignoreNs, r)).sequence, old(row(a, r).sequence))
 //@   modifies a.seqs, a.seqmap, a.length
